@@ -4,6 +4,7 @@ from analysis.facts import AnchorError
 from analysis import terms as T, k2
 from analysis.cfg import cfg_of
 
+THOROUGH_CONFIGS = ['release', 'nobmi2', 'engine-alone']
 LEVEL = "other"
 DECIDED = ("R1 in alphabeta the mate score is built only under `no legal move` and `in check` of the position after the move, as BlackMateIn(d) when White is mated and "
            "WhiteMateIn(d) when Black is, with d the current depth, and root calls pass current_depth = 1; R2 mate scores are constructed nowhere else in the workspace except the "
@@ -94,7 +95,8 @@ def r1(ctx):
             if r.get("k") == "agg" and r.get("adt") == ENG + "AlphaBetaArgs":
                 ops = dict(zip(r["fields"], r["ops"]))
                 d = k2.describe_operand(P, body, ops["current_depth"])
-                inc = d[0] == "proj" and d[1][0] == "bin" and d[1][1].startswith("Add") and ("int", 1, "u16") in d[1][2:] and ("place", "args", ("d", "current_depth")) in d[1][2:]
+                b_ = d[1] if d[0] == "proj" else d
+                inc = b_[0] == "bin" and b_[1].startswith("Add") and ("int", 1, "u16") in b_[2:] and ("place", "args", ("d", "current_depth")) in b_[2:]
     ctx.ob("recursion depth + 1", inc, "alphabeta does not pass current_depth + 1 to the next ply", site=site)
 
 
